@@ -100,7 +100,7 @@ def build_queries(prop, sysm, u, mon, tier='quick'):
             base = nf + nohang + [nosig]
             qs.append(Query('bound_sufficient', incomplete, base, confirm=None, desc='completeness of K'))
             qs.append(Query('no_deadlock', z3.And(final_quiet, z3.Not(svc_root), z3.Not(z3.And(S['main.phase'] == 4, z3.Not(S['main.err'])))), base,
-                            confirm='stuck', desc='quiescent state in which a successful one-shot run has not exited with Ok'))
+                            confirm='deadlock', desc='quiescent state in which a successful one-shot run has not exited with Ok'))
             qs.append(Query('all_needed_targets_done', z3.And(final_quiet, z3.Not(svc_root), z3.Or([
                 z3.And(inc[t], G['nresult.%d' % t] != 1) for t in range(n) if sysm.kinds[t] == 'build'] + [F])), base, confirm='missing'))
             qs.append(Query('no_panic_or_misrouted_message', sticky, base, confirm='panic'))
@@ -197,6 +197,9 @@ def confirm_native(kind, case, tr):
     evs = tr.events
     if kind == 'stuck':
         return tr.stuck and not tr.main_done
+    if kind == 'deadlock':
+        # nobody can move although no script is running any more (a run that merely waits for a process is not a deadlock)
+        return tr.stuck and not tr.main_done and not tr.stuck_running
     if kind == 'panic':
         return 'panicked' in tr.stderr
     if kind == 'twice':
@@ -288,7 +291,8 @@ def confirm_native(kind, case, tr):
 
 def run_case(arg):
     """Worker: one kinds-combination. Returns a dict of results."""
-    (prop, kinds, watch, K, qcap, seed, do_witness, timeout_s, repo, tier) = arg
+    (prop, kinds, watch, K, qcap, seed, do_witness, timeout_s, repo, tier) = arg[:10]
+    budget_s = arg[10] if len(arg) > 10 else None        # wall-clock budget for all solver queries of this case
     t_start = time.time()
     out = {'kinds': kinds, 'watch': watch, 'K': K, 'queries': [], 'witness': None, 'error': None, 'functions': [], 'paths': 0}
     try:
@@ -326,6 +330,12 @@ def run_case(arg):
             for bits in itertools.product([False, True], repeat=len(depsyms)):
                 assumps = [d if b else z3.Not(d) for d, b in zip(depsyms, bits)]
                 nsub += 1
+                if budget_s is not None:
+                    left = budget_s - (time.time() - t_start)
+                    if left < 5:
+                        r = 'unknown (case budget of %d s used up)' % budget_s
+                        break
+                    s.set('timeout', int(min(timeout_s, left) * 1000))
                 rr = s.check(*assumps)
                 if rr == z3.sat:
                     r = z3.sat
@@ -480,4 +490,83 @@ def run_local(arg):
     except Exception as e:   # pragma: no cover
         out['error'] = 'exception: %s\n%s' % (e, traceback.format_exc()[-1500:])
     out['wall_s'] = round(time.time() - t0, 1)
+    return out
+
+
+def run_sysq(arg):
+    """Worker: SYSQ search for one kinds-combination (explicit relay channel, blocking sends, bounded capacities clamped
+    to `cap`).  A blocked state reachable within K steps is reported (after native replay with the same clamp); 'unsat'
+    says none is reachable within K steps under the clamp ('bound_sufficient' unsat: no run is longer than K)."""
+    (prop, kinds, K, cap, timeout_s, repo) = arg
+    from ..sysq import QSystem
+    t_start = time.time()
+    out = {'kinds': kinds, 'watch': False, 'K': K, 'cap': cap, 'queries': [], 'error': None, 'functions': []}
+    try:
+        prog = Program(repo)
+        sysm = QSystem(prog, list(kinds), False, cap_out=cap, cap_in=cap)
+        mon = ProtoMonitor(False)
+        u = sysm.unroll(K, mon)
+        out['state_vars'] = len(u.states[0])
+        out['alternatives'] = len(u.alt_names)
+        out['inbox_unbounded_in_source'] = list(sysm.inbox_unbounded)
+        out['receiver_dropped_when_run_returns'] = bool(sysm.receiver_by_value)
+        s = u.solver(timeout_ms=int(timeout_s * 1000))
+        s.add(z3.Or(sysm.root))
+        S = u.states[-1]
+        G = u.ghosts[-1]
+        for c in oracle_constraints(u, replayable):
+            s.add(c)
+        s.add(z3.Not(S['overflow']))
+        quiet = u.quiescent(K, ignore=('signal', 'notify'))
+        nohang = [z3.Not(z3.Bool('hang_%d' % i)) for i in range(sysm.n)]
+        allhang = [z3.Bool('hang_%d' % i) for i in range(sysm.n)]
+        nf = oracle_constraints(u, nofail)
+        qs = []
+        if prop == 'C04':
+            base = nf + nohang + [z3.Not(S['sig.sent'])]
+            qs.append(Query('no_circular_wait_between_relay_and_actors', z3.And(quiet, z3.Not(z3.And(S['main.phase'] == 4, z3.Not(S['main.err'])))), base, confirm='deadlock',
+                            role='relay_inbox_circular_wait', desc='quiescent state (nobody can move, pending sends blocked) in which a successful one-shot run has not exited; capacities clamped to %d' % cap))
+            qs.append(Query('bound_sufficient_under_queue_pressure', z3.Not(quiet), base, confirm=None, desc='some run is longer than K steps'))
+        elif prop == 'C10':
+            qs.append(Query('signal_leads_to_exit_under_queue_pressure', z3.And(quiet, S['sig.sent'], S['main.phase'] != 4), allhang, confirm='stuck',
+                            role='shutdown_blocked_on_full_channel', desc='after a signal, nobody can move and the program has not exited (an actor or the engine is blocked on a full channel); capacities clamped to %d' % cap))
+            if timeout_s > 300:      # thorough tier only: this one does not decide within the quick budget
+              qs.append(Query('failure_leads_to_exit_under_queue_pressure', z3.And(quiet, G['any_failed'], z3.Not(S['sig.sent']), S['main.phase'] != 4), nohang, confirm='deadlock',
+                            role='shutdown_blocked_on_full_channel', desc='after a failure, nobody can move and the program has not exited; capacities clamped to %d' % cap))
+        depsyms = [sysm.dep[i][j] for i in range(sysm.n) for j in range(i)] + list(sysm.root)
+        for q in qs:
+            t0 = time.time()
+            s.push()
+            for a in q.assume:
+                s.add(a)
+            s.add(q.bad)
+            r = z3.unsat
+            nsub = 0
+            for bits in itertools.product([True, False], repeat=len(depsyms)):
+                if not any(bits[len(depsyms) - sysm.n:]):
+                    continue
+                assumps = [d if b else z3.Not(d) for d, b in zip(depsyms, bits)]
+                nsub += 1
+                left = timeout_s - (time.time() - t0)        # timeout_s is the budget of the whole query
+                if left < 5:
+                    r = 'unknown (query budget of %d s used up)' % timeout_s
+                    break
+                s.set('timeout', int(left * 1000))
+                rr = s.check(*assumps)
+                if rr == z3.sat:
+                    r = z3.sat
+                    break
+                if rr != z3.unsat:
+                    r = rr
+            res = {'name': q.name, 'verdict': str(r), 'solver_s': round(time.time() - t0, 2), 'confirm': q.confirm, 'role': q.role, 'graph_cases': nsub, 'desc': q.desc}
+            if r == z3.sat:
+                res['case'] = rp.model_case(sysm, u, s.model())
+                res['case']['cap'] = cap
+            s.pop()
+            out['queries'].append(res)
+    except Unsupported as e:
+        out['error'] = 'unsupported: %s' % e
+    except Exception as e:   # pragma: no cover
+        out['error'] = 'exception: %s\n%s' % (e, traceback.format_exc()[-1500:])
+    out['wall_s'] = round(time.time() - t_start, 1)
     return out
